@@ -535,6 +535,8 @@ type L1Store struct {
 	path string
 	P    *l1infotreesync.VerifProcessor
 	F    *l1infotreesync.L1InfoTreeSync
+	// LooseLast: the last processed block may be an empty block above the model's last event block
+	LooseLast bool
 }
 
 func NewL1Store(path string) *L1Store { return &L1Store{path: path} }
@@ -844,7 +846,7 @@ func (s *L1Store) CheckRef(m *L1Model, heavy bool, r *Rand) error {
 	if err != nil {
 		return fmt.Errorf("GetLastProcessedBlock: %w", err)
 	}
-	if lp != m.LastBlock() {
+	if lp != m.LastBlock() && !(s.LooseLast && lp > m.LastBlock()) {
 		return fmt.Errorf("last processed block %d, reference %d", lp, m.LastBlock())
 	}
 	n := len(m.Leaves)
